@@ -134,7 +134,7 @@ class RoundTrip(Facet):
 
 
 class Large(Facet):
-    """A short exhaustive list of LARGE models (survival tables of 6 ... 130 MiB, item counts that are prime or odd):
+    """A short exhaustive list of LARGE models (survival tables of 6 ... 130 MiB; quick tier: 6 and 34 MiB, item counts that are prime or odd):
     size thresholds of blocked / batched solvers are out of reach of the small generated configurations."""
 
     name = "large"
